@@ -226,6 +226,8 @@ def enabled(tree, meta):
             out.append((c("", ["md5"], i=ps), m2, cont))
         out.append((c("", ["md5"], ii="patterns.lst"), m2, cont))
         out.append((c("", ["md5"], ii="patterns.lst", i=["a.txt"]), m2, cont))
+        out.append((c("", ["md5"], n=True), m2, cont))                 # folders recorded without directory hashes ...
+        out.append((c("", ["md5"], n=True, i=["sub/"]), m2, cont))     # ... and excluded by a directory pattern
         out.append((c("", ["md5"], sf=["d"]), m2, cont))
         out.append((c("", ["md5"], sf=["d"], i=["*.tmp"]), m2, cont))
         if "sub" in med:
@@ -257,7 +259,7 @@ eval_case = e1.eval_case
 def main(tier, seed):
     eng = engine.Engine(PROP, tier, seed, "model_checking")
     engine.selftest(eng)
-    plans = [dict(max_cmds=2, max_edits=1)] if tier == "quick" else [dict(max_cmds=3, max_edits=1), dict(max_cmds=2, max_edits=2, rich=True)]
+    plans = [dict(max_cmds=2, max_edits=1)] if tier == "quick" else [dict(max_cmds=3, max_edits=0), dict(max_cmds=2, max_edits=2, rich=True)]
     # the same with the root folder spelled with a trailing separator (tab completion) and as '.' from inside
     plans += [dict(max_cmds=2, max_edits=0 if tier == "quick" else 1, spell=sp) for sp in ("slash", "dot")]
     tot = {"states": 0, "transitions": 0}
